@@ -72,7 +72,7 @@ def datadir_ops(case, d):
         changed = sorted(k for k in set(before) | set(after) if before.get(k) != after.get(k))
         out.append(dict(res=r[:2], changed=changed, tree=after if op.get('want_tree') else None))
     # the array must still open and be intact if no protected file changed
-    out.append(dict(final_open=attempt(lambda: (darr.Array(base) if case['kind'] == 'Array' else darr.RaggedArray(base)) and None)[:2]))
+    out.append(dict(final_open=attempt(lambda: ((darr.Array(base) if case['kind'] == 'Array' else darr.RaggedArray(base)), None)[1])[:2]))
     return out
 
 
@@ -176,6 +176,6 @@ def create_case(case, d):
         call = lambda: src.archive(filepath=base, overwrite=ow)
     else:
         raise ValueError(f)
-    res = attempt(lambda: call() and None)
+    res = attempt(lambda: (call(), None)[1])
     after = snapshot(base) if os.path.lexists(base) else {'': ['missing']}
     return dict(res=res[:2], before=before, after=after)
